@@ -2,7 +2,7 @@
 import math
 from datetime import datetime, timedelta
 
-from tradingenv.contracts import ETF, ES, ZN, NK, Cash
+from tradingenv.contracts import ETF, ES, ZN, NK, Cash, FutureChain, AbstractContract
 from tradingenv.broker.broker import Broker
 from tradingenv.broker.fees import BrokerFees
 from tradingenv.broker.rebalancing import Rebalancing
@@ -25,7 +25,7 @@ RULE = ("Two workloads at the Broker.rebalance boundary. (a) rebalances inside r
         "non-empty holdings and targets a short or leveraged (>1) weight or mixes spot and margined contracts.")
 ASSUMPTIONS = ["no trade threshold (C12)", "epsilon snap of |position| < 1e-7 is documented behaviour (DESIGN 4.2-a)",
                "contract-count targets are reached to 8 ulp of max(1,|target|,|prior|) (DESIGN 4.2-b)"]
-REQUIRED = ["C03:target-weight-reached", "C03:target-contracts-reached", "C03:untargeted-closed",
+REQUIRED = ["C03:chain-others-flat", "C03:target-weight-reached", "C03:target-contracts-reached", "C03:untargeted-closed",
             "C03:frictionless-weights", "C03:frictionless-nlv-unchanged", "C03:second-rebalance-trades-nothing",
             "C03:frictionless-contracts-reached"]
 REQUIRED_HITS = ["Broker.rebalance", "Rebalancing.make_trades"]
@@ -46,18 +46,40 @@ def frictionless(ctx):
     cs = pool[: rng.randint(1, 4)]
     fees = BrokerFees()
     t = datetime(2019, 1, 1)
+    AbstractContract.now = t
+    chain = None
+    if rng.random() < 0.3:
+        # a futures chain (front month or a later month) as rebalancing target: the position
+        # must land in the contract the chain designates at the current time
+        chain = FutureChain(rng.choice([ES, NK]), "2019-01", "2020-12", month=rng.choice([0, 1, 2]))
+        cs = [c for c in cs if not (isinstance(c, (ES, NK)))] + [chain]
+        ctx.cat("chain-target:month%d" % chain._month)
     ex = gen.new_exchange(t, fees)
     mid = {}
     for c in cs:
+        if c is chain:
+            for f in chain.contracts:
+                mid[f] = rng.choice([20.0, 100.0, 2500.0]) * rng.uniform(0.9, 1.1)
+                ex.process_EventNBBO(EventNBBO(t, f, mid[f], mid[f]))
+            continue
         mid[c] = rng.choice([20.0, 100.0, 2500.0]) * rng.uniform(0.9, 1.1)
         ex.process_EventNBBO(EventNBBO(t, c, mid[c], mid[c]))
+
+    def designated(c):
+        """The contract a target for `c` must end up in."""
+        if c is chain:
+            cand = sorted([f for f in chain.contracts if f.last_trading_date > AbstractContract.now],
+                          key=lambda f: f.last_trading_date)
+            return cand[chain._month]
+        return c
     dep = rng.choice([1e5, 1e7])
     b = Broker(ex, deposit=dep)
     nhist = rng.randint(0, 3)
     for _ in range(nhist):
         t += timedelta(days=1)
+        AbstractContract.now = t
         b.rebalance(Rebalancing(cs, [rng.uniform(-1, 1.5) for _ in cs], time=t))
-        for c in cs:
+        for c in list(mid):
             mid[c] *= math.exp(rng.gauss(0, 0.02))
             ex.process_EventNBBO(EventNBBO(t, c, mid[c], mid[c]))
     meas = rng.choice(["weight", "nr-contracts"])
@@ -73,6 +95,7 @@ def frictionless(ctx):
         vals = [x for j, x in enumerate(tgt) if j != drop]
         tgt[drop] = 0
     t += timedelta(days=1)
+    AbstractContract.now = t
     r = Rebalancing(keys, vals, measure=meas, time=t)
     b.rebalance(r)
     n1 = b.net_liquidation_value()
@@ -82,12 +105,18 @@ def frictionless(ctx):
     hprev = r.context_pre.nr_contracts
     if meas == "weight":
         w = b.holdings_weights()
-        for c, x in zip(cs, tgt):
+        for c0, x in zip(cs, tgt):
+            c = designated(c0)
             snap = 1.01e-7 * c.multiplier * mid[c] / n0
             ctx.check("C03:frictionless-weights", abs(w.get(c, 0.0) - x) <= 1e-9 * max(1.0, gross / n0) + snap,
                       contract=c.symbol, got=w.get(c, 0.0), want=x)
+        if chain is not None:
+            d_ = designated(chain)
+            ctx.check("C03:chain-others-flat", all(h.get(f, 0.0) == 0.0 for f in chain.contracts if f is not d_),
+                      designated=d_.symbol, held={f.symbol: h.get(f, 0.0) for f in chain.contracts if h.get(f, 0.0)})
     else:
-        for c, x in zip(cs, tgt):
+        for c0, x in zip(cs, tgt):
+            c = designated(c0)
             ctx.check("C03:frictionless-contracts-reached",
                       abs(h.get(c, 0.0) - x) <= 8 * 2.3e-16 * max(1, abs(x), abs(hprev.get(c, 0.0))),
                       contract=c.symbol, got=h.get(c, 0.0), want=x)
@@ -99,8 +128,10 @@ def frictionless(ctx):
     ctx.cat("frictionless:" + meas, "frictionless:history{}".format(nhist))
     ctx.nontrivial = nhist > 0 and (any(x < 0 or x > 1 for x in tgt) or
                                     len({gen.is_margined(c) for c in cs}) == 2)
-    ctx.sample = {"frictionless": True, "contracts": [gen.describe_contract(c) for c in cs], "measure": meas,
-                  "targets": tgt, "targeted": [c.symbol for c in keys], "prior_rebalances": nhist, "deposit": dep}
+    gross = gross
+    AbstractContract.now = datetime.min
+    ctx.sample = {"frictionless": True, "contracts": [gen.describe_contract(c) if c is not chain else {"chain": type(chain.contracts[0]).__name__, "month": chain._month} for c in cs], "measure": meas,
+                  "targets": tgt, "targeted": [c.symbol if c is not chain else "chain" for c in keys], "prior_rebalances": nhist, "deposit": dep}
 
 
 def case(ctx, i, tier):
